@@ -57,6 +57,9 @@ func main() {
 		}
 	}
 	p, err := an.Load(*repo, false, 19)
+	if err == nil {
+		rules.ResolveAnchors(p)
+	}
 	exit := 0
 	if err != nil {
 		for _, id := range props {
